@@ -17,6 +17,9 @@ RULE = (
 ASSUMPTIONS = ["ancestor chains are recomputed from .parent only; all comparisons by identity"]
 
 
+_WALKER = Walker()  # one instance for the whole process: walk() must not depend on earlier calls
+
+
 def chain(node):
     out = []
     cur = node
@@ -51,7 +54,7 @@ def check_pair(start, end, labels):
             break
         down_exp.append(n)
     down_exp.reverse()
-    got = Walker().walk(start, end)
+    got = _WALKER.walk(start, end)
     ctx = "walk(%s, %s)" % (labels.label(start), labels.label(end))
     if not (isinstance(got, tuple) and len(got) == 3):
         raise Violation("result-shape", "%s returned %r" % (ctx, got))
@@ -83,7 +86,25 @@ def check_pair(start, end, labels):
     return bool(up_exp) and bool(down_exp)
 
 
+def check_deep(case, acc):
+    """walk() between nodes of a very deep tree: Walker works on root paths, which are computed iteratively."""
+    from .c04 import build_deep
+
+    spine, side = build_deep(case, nodes.factory(case["cls"]))
+    labels = forest.Labels(spine + side)
+    picks = [spine[0], spine[len(spine) // 3], spine[-1]] + side[:1] + side[-1:]
+    nontrivial = 0
+    for a in picks:
+        for b in picks:
+            nontrivial += bool(check_pair(a, b, labels))
+    acc.evaluations += len(picks) ** 2 - 1
+    acc.nontrivial(nontrivial > 0)
+    acc.tag("deep_tree_cases")
+
+
 def check_case(case, acc):
+    if case.get("kind") == "deep":
+        return check_deep(case, acc)
     make = nodes.factory(case["cls"])
     tree = forest.build_tree(case["shape"], make)
     other = forest.build_tree(case.get("other", [[]]), make)
@@ -132,7 +153,7 @@ def _enum_cases(max_nodes, index, count):
         if k % count == index:
             size = shapes.shape_size(shape)
             # every enumerated shape is also re-checked after moving its last node under the root's first child and after detaching node 1
-            yield {"shape": forest.to_list(shape), "other": [[], [[]]], "cls": "Node" if k % 3 else "SlotLM", "enumerated": True, "mutations": [["move", size - 1, 1], ["detach", 1], ["move", 0, size - 1]] if size >= 3 else []}
+            yield {"shape": forest.to_list(shape), "other": [[], [[]]], "cls": ("Node", "EqNode", "SlotLM", "FalsyNode", "Node", "EqSlotLM", "LenNode")[k % 7], "enumerated": True, "mutations": [["move", size - 1, 1], ["detach", 1], ["move", 0, size - 1]] if size >= 3 else []}
 
 
 @st.composite
@@ -153,10 +174,17 @@ def plan(tier, seed):
     examples = 150 if tier == "quick" else 3000
     tasks = [{"engine": "enum", "max_nodes": max_nodes, "index": i, "count": nshards * 2} for i in range(nshards * 2)]
     tasks += [{"engine": "hyp", "examples": examples, "seed": seed * 1000 + i} for i in range(nshards)]
+    tasks += [{"engine": "deep", "depth": d, "cls": c} for d in ((700, 1500) if tier == "quick" else (300, 700, 1500, 3000)) for c in ("Node", "SlotLM", "AnyNode")]
     return tasks
 
 
 def run_task(task, acc):
+    if task["engine"] == "deep":
+        case = {"kind": "deep", "depth": task["depth"], "every": 97, "cls": task["cls"]}
+        exc = acc.evaluate(check_case, case, enumerated=False)
+        if exc is not None:
+            acc.add_violation(case, exc)
+        return
     if task["engine"] == "enum":
         acc.run_enum(check_case, _enum_cases(task["max_nodes"], task["index"], task["count"]))
     else:
